@@ -35,6 +35,8 @@ func c02(c *Check) {
 	c.Rule("C02/tss-proof-only-for-tss", "the proof argument handed to the client is msg.ProofCommitment / msg.ProofAcked, replaced by msg.Signer only on the ClientType()==\"tss-client\" branch", 2)
 	tssProofRule(c, "C02/tss-proof-only-for-tss")
 
+	c.Rule("C02/no-swallowed-panic", "no function of the light clients, the commitment verifier or the packet keeper defers a recover() that lets it return normally after a panic: a verification step that panics must not come back as a nil error", 1)
+	noSwallowedPanic(c, "C02/no-swallowed-panic", fnsInPackages(c, "/x/xibc/clients/", "/x/xibc/core/commitment", "/x/xibc/core/packet/keeper", "/x/xibc/keeper"))
 	c.Rule("C02/msg-server-gated-by-verification", "the msg server rejects when the packet keeper's RecvPacket / AcknowledgePacket returns an error (whatever the error), and every contract call, ack write and success return is dominated by the err==nil edge", 10)
 	{
 		m := msM
